@@ -341,7 +341,7 @@ func (e *Engine) rangeLoopFacts(fr *Frame, li *loopInfo, h *State) {
 	if !ok {
 		return
 	}
-	e.ctx.Assume(implies(h.pc, and(sx("<=", "(- 1)", v.T), sx("<", v.T, sx("+", b.T, "1")), sx("<=", "0", b.T))))
+	e.ctx.Assume(implies(h.pc, and(sx("<=", "(- 1)", v.T), sx("<", v.T, ite(sx("<", b.T, "0"), "0", b.T)))))
 }
 
 func (e *Engine) closeLoop(fr *Frame, li *loopInfo, st *State) {
@@ -779,6 +779,7 @@ func (e *Engine) loadPtr(st *State, p *Ptr) Val {
 		if !ok {
 			v = e.globalInitAt(p.Global, st.epoch)
 			e.assumeWF(v, p.Global.Type().(*types.Pointer).Elem(), nil)
+			v = e.sentinelFacts(p.Global, v)
 			st.globals[p.Global] = v
 		}
 		return getPath(v, p.Path)
@@ -1011,4 +1012,45 @@ func (e *Engine) makeSlice(fr *Frame, st *State, ins *ssa.MakeSlice) Val {
 		e.heapSet(st, name, sortM, r, sx("store", m, r, zeroTerm("(Array Int "+c.Sort+")")))
 	}
 	return Val{K: KSlice, Typ: ins.Type(), Fs: []Val{intv(r), intv("0"), intv(ln), intv(cp)}}
+}
+
+// sentinelFacts: a package-level interface variable that is assigned only in its
+// package initialiser, from errors.New / fmt.Errorf or from a freshly allocated
+// object, is non-nil and distinct from every other such variable.
+func (e *Engine) sentinelFacts(g *ssa.Global, v Val) Val {
+	if v.K != KIface || e.mutableGlobal(g) || g.Pkg == nil {
+		return v
+	}
+	init := g.Pkg.Func("init")
+	if init == nil {
+		return v
+	}
+	kind := ""
+	for _, b := range init.Blocks {
+		for _, ins := range b.Instrs {
+			s, ok := ins.(*ssa.Store)
+			if !ok || s.Addr != ssa.Value(g) {
+				continue
+			}
+			switch x := s.Val.(type) {
+			case *ssa.Call:
+				if f := x.Call.StaticCallee(); f != nil {
+					switch f.String() {
+					case "errors.New", "fmt.Errorf":
+						kind = "new"
+					}
+				}
+			case *ssa.MakeInterface:
+				if a, ok := x.X.(*ssa.Alloc); ok && a.Heap {
+					kind = "new"
+				}
+			}
+		}
+	}
+	if kind == "" {
+		return v
+	}
+	e.note("package-level error sentinels are non-nil, pairwise distinct and never reassigned")
+	e.ctx.Assume(not(eq(v.Fs[0].T, "0")))
+	return Val{K: KIface, Typ: v.Typ, Fs: []Val{v.Fs[0], intv(e.globalRef(g))}}
 }
